@@ -203,7 +203,7 @@ fn run(ctx: &Ctx) {
     }
     let mut tr = TestRunner::new_with_rng(Config::default(), TestRng::from_seed(RngAlgorithm::ChaCha, &seed_bytes));
     let mut runner = Runner::new();
-    let scale = ctx.tier.pick(1u64, 25);
+    let scale = ctx.tier.pick(3u64, 40);
     let mut lines: Vec<String> = Vec::new();
     // A: texts
     let texts = asmref::program(6);
